@@ -57,4 +57,15 @@ theorem symmOpR_strength (s : Symm) (x y : Rat) (n : Nat) :
   · exact (max_div_div_right hc _ _)
   · exact (min_div_div_right hc _ _)
 
+/-- `directed`, `mean`, `max`, `min` keep real values inside any interval containing both
+entries (the table as NumPy applies it to the float matrix) -/
+theorem symmOpR_between (s : Symm) (hs : s = .directed ∨ s = .mean ∨ s = .max ∨ s = .min)
+    (a b lo hi : ℝ) (ha : lo ≤ a ∧ a ≤ hi) (hb : lo ≤ b ∧ b ≤ hi) :
+    lo ≤ symmOpR s a b ∧ symmOpR s a b ≤ hi := by
+  rcases hs with rfl | rfl | rfl | rfl <;> simp only [symmOpR]
+  · exact ha
+  · constructor <;> linarith [ha.1, ha.2, hb.1, hb.2]
+  · exact ⟨le_max_of_le_left ha.1, max_le ha.2 hb.2⟩
+  · exact ⟨le_min ha.1 hb.1, min_le_of_left_le ha.2⟩
+
 end Pyunicorn.Events
